@@ -12,9 +12,9 @@ import (
 type Op uint8
 
 const (
-	OpConst Op = iota // bit-vector or bool constant (val)
-	OpVar             // free variable (name)
-	OpConstArr        // constant array, every element = val
+	OpConst    Op = iota // bit-vector or bool constant (val)
+	OpVar                // free variable (name)
+	OpConstArr           // constant array, every element = val
 	OpAdd
 	OpSub
 	OpMul
